@@ -388,7 +388,7 @@ class GriffeLoader:
             if already_present:
                 old_member = obj.get_member(new_member.name)
                 old_lineno = old_member.alias_lineno if old_member.is_alias else old_member.lineno
-                overwrite = alias_lineno > (old_lineno or 0)  # type: ignore[operator]
+                overwrite = (alias_lineno or 0) > (old_lineno or 0)
 
             # 1. If the expanded member is an alias with a target path equal to its own path, we stop.
             #    This situation can arise because of Griffe's mishandling of (abusive) wildcard imports.
@@ -713,7 +713,8 @@ class GriffeLoader:
         return [
             (imported_member, wildcard_obj.alias_lineno, wildcard_obj.alias_endlineno)
             for imported_member in module.members.values()
-            if imported_member.is_wildcard_exposed
+            # A member standing for a not yet expanded wildcard import (`pkg/mod/*`) is not a name of the module.
+            if not (imported_member.is_alias and imported_member.wildcard) and imported_member.is_wildcard_exposed
         ]
 
 
